@@ -19,6 +19,9 @@ def run(ctx):
         ctx.pipe([h, "smooth", "20", "33", "64"], "smooth", label="smoother-sweeps-33x64")
     # the parallel regions of these operators must be race-free, otherwise the result depends on the schedule
     ctx.schedule_conflicts((" SmootherGive::", " SmootherTake::"))
+    # the smoothers as the SOLVER reaches them (setup() -> Level::initializeSmoothing -> Level::smoothing), every extrapolation mode
+    hs = ctx.build_harness("h_solver")
+    ctx.pipe([hs, "levelops", "smooth", "16" if ctx.tier == "quick" else "150"], "smooth", label="smoothing-through-the-solver-object")
     ctx.assumptions += ["spec-level model: the 5 000 lines of smoother C++ (assembly, right-hand sides, line solves) are tied to the sweep "
                         "equations by this correspondence only; the line solvers themselves are C14 / C16",
                         "energy monotonicity is proved in Dirichlet mode; across the origin it inherits the C05 gap"]
